@@ -49,6 +49,7 @@ def run(ctx: Ctx):
                 ctx.fail("R02.a", "c-printer::Integer::real-literal", f"C printer: Integer is printed by {r}: {v['why']}", "")
             continue
         ctx.check(v.get("ok", False), "R02.a", key, f"{r} (vetted)", f"C printer: {name} falls through to the inherited {r}: {v.get('why', 'not value-preserving')}", "")
+    printers.check_no_unvetted_override(ctx, "R02.a", "c")
     fl = M.method("c", "_print_Float")
     okfl = fl is not None and any(isinstance(n, ast.Return) and norm(n.value) in ("self._print(str(float(flt)))", "self._print(repr(float(flt)))") for n in ast.walk(fl.node))
     ctx.check(okfl, "R02.a", "c-printer::Float::repr", "Float -> shortest round-trip repr", "C printer: a Float is not printed as str(float(value))", fl.where() if fl else "")
@@ -116,6 +117,11 @@ def run(ctx: Ctx):
         ctx.check(ok, "R02.d", f.key("out-parameter"), "result is the trailing `double* values`", f"{f.qualname}: argument list is {norm(lists[0].value) if lists else None}", f.where())
     ctx.rule("R02.e", "the C functions number their slots like the index functions (slot families)", floor=17)
     slot_families(ctx, "R02.e")
+    ctx.rule("R02.g", "every scheme emitted for C receives the keyword arguments its builder takes (delta, stiff_states)", floor=4)
+    from . import common as _c
+
+    _c.check_scheme_kwargs(ctx, "R02.g", "delta")
+    _c.check_scheme_kwargs(ctx, "R02.g", "stiff_states")
     ctx.rule("R02.f", "the Rush-Larsen schemes emitted for C keep their zero-division guard unless the linearisation is provably non-zero (same rule as R06.b: C evaluates 0/0 to NaN)", floor=6)
     from .c06 import check_elision
 
